@@ -25,7 +25,7 @@ TRUSTED_BASE = [
     'tools/*.py, harness/ (generators, canonicaliser, oracles) are trusted test code',
 ]
 
-RS2LEAN_SPECS = [('words.json', 'WordsSrcGen.lean', 'SrcWords')]
+RS2LEAN_SPECS = [('words.json', 'WordsSrcGen.lean', 'SrcWords'), ('rdh.json', 'RdhSrcGen.lean', 'SrcRdh')]
 
 os.makedirs(CACHE, exist_ok=True)
 
